@@ -31,8 +31,8 @@ fn kind_name(k: DcKind) -> &'static str {
 
 pub fn run(case: &Value, _seed: u64) -> Obj {
     let devs = get_array(case, "devices");
-    if devs.is_empty() || devs.len() > 16 {
-        return unsupported(case, "1..16 devices are supported (MAX_SUBDEVICES is 16)");
+    if devs.is_empty() || devs.len() > 32 {
+        return unsupported(case, "1..32 devices are supported (MAX_SUBDEVICES is 32)");
     }
     let raw_ports = get_str(case, "op", "") == "raw_ports";
     let n = devs.len();
@@ -112,7 +112,7 @@ pub fn run(case: &Value, _seed: u64) -> Obj {
     let mut out = Obj::new();
     out.insert("case".into(), case.clone());
     let md = env.md;
-    let p = env.run(md.init_single_group::<16, 64>(move || now_ns));
+    let p = env.run(md.init_single_group::<32, 64>(move || now_ns));
     let group = put_phase(&mut out, "", p);
 
     // Reference clock as ethercrab chose it, latch working counter
